@@ -7,6 +7,7 @@ import (
 	"errors"
 	"fmt"
 	"io"
+	"math"
 	"math/rand"
 	"net"
 	"sync/atomic"
@@ -756,7 +757,7 @@ func (p *protocolV2) REQ(client *clientV2, params [][]byte) ([]byte, error) {
 		return nil, protocol.NewFatalClientErr(err, "E_INVALID",
 			fmt.Sprintf("REQ could not parse timeout %s", params[2]))
 	}
-	timeoutDuration := time.Duration(timeoutMs) * time.Millisecond
+	timeoutDuration := msToDuration(timeoutMs)
 
 	maxReqTimeout := p.nsqd.getOpts().MaxReqTimeout
 	clampedTimeout := timeoutDuration
@@ -918,7 +919,7 @@ func (p *protocolV2) DPUB(client *clientV2, params [][]byte) ([]byte, error) {
 		return nil, protocol.NewFatalClientErr(err, "E_INVALID",
 			fmt.Sprintf("DPUB could not parse timeout %s", params[2]))
 	}
-	timeoutDuration := time.Duration(timeoutMs) * time.Millisecond
+	timeoutDuration := msToDuration(timeoutMs)
 
 	if timeoutDuration < 0 || timeoutDuration > p.nsqd.getOpts().MaxReqTimeout {
 		return nil, protocol.NewFatalClientErr(nil, "E_INVALID",
@@ -1056,4 +1057,13 @@ func enforceTLSPolicy(client *clientV2, p *protocolV2, command []byte) error {
 			fmt.Sprintf("cannot %s in current state (TLS required)", command))
 	}
 	return nil
+}
+
+// msToDuration converts a count of milliseconds to a time.Duration,
+// saturating at the largest Duration instead of wrapping around
+func msToDuration(ms uint64) time.Duration {
+	if ms > uint64(math.MaxInt64/int64(time.Millisecond)) {
+		return time.Duration(math.MaxInt64)
+	}
+	return time.Duration(ms) * time.Millisecond
 }
